@@ -38,17 +38,17 @@ def call_real(own, deps):
             if dep['e'] != -1:
                 d[dt.name].update(start_clock=dep['e'] - 1, end_clock=dep['e'])
     env = env_mod.Env(d)
-    before = {k: dict(v) for k, v in env.dictionary.items() if k != 't0'}
+    before = {k: dict(v) for k, v in schedrun.env_dict(env).items() if k != 't0'}
     try:
         res = q_mod.QueueScheduling.decide_new_state(task, dtasks, [dt for dt, dep in zip(dtasks, deps) if dep['hard']], env)
         decision = 'DROP' if res is None else TaskStatus(res).name
     except Exception:  # pylint: disable=broad-except
         decision = 'ASSERT'           # any exception: the call refuses the input
-    e = env.dictionary.get('t0')
+    e = schedrun.env_dict(env).get('t0')
     status = 'ABSENT' if e is None or 'status' not in e else TaskStatus(e['status']).name
     if own['st'] == 'ABSENT' and status == 'WAITING' and decision in ('DROP', 'ASSERT'):
         status = 'ABSENT'
-    touched = {k: dict(v) for k, v in env.dictionary.items() if k != 't0'} != before
+    touched = {k: dict(v) for k, v in schedrun.env_dict(env).items() if k != 't0'} != before
     return dict(decision=decision, status=status), touched
 
 
